@@ -27,6 +27,7 @@ Definition out_eqb (a b : out) : bool :=
   | OPairs x, OPairs y => pairs_eqb x y
   | OMulti x, OMulti y => multi_eqb x y
   | OItem k v, OItem k' v' => Nat.eqb k k' && Nat.eqb v v'
+  | ORaised e, ORaised e' => exn_eqb e e'
   | _, _ => false
   end.
 
